@@ -6,7 +6,7 @@ ROOT="$(cd "$(dirname "${BASH_SOURCE[0]}")/.." && pwd)"
 export LAB="${LAB:-/tmp/lab2}"
 TIER="${1:-quick}"; FILTER="${2:-}"
 [ -d "$LAB/repo" ] && "$ROOT/tools/lab.sh" sync >/dev/null 2>&1 || "$ROOT/tools/lab.sh" init >/dev/null 2>&1
-OUT="$ROOT/logs/lab_seeded_results.txt"; : > "$OUT"
+OUT="${LAB_SEEDED_OUT:-$ROOT/logs/lab_seeded_results.txt}"; : > "$OUT"
 det=0; miss=0
 for d in "$ROOT"/seeded/C*; do
   name="$(basename "$d")"; [[ "$name" == *"$FILTER"* ]] || continue
